@@ -9,10 +9,11 @@ import CircuitModel.DriverRC
 import CircuitModel.DriverTC
 import CircuitModel.DriverRP
 import CircuitModel.DriverCircuit
+import CircuitModel.DriverOpener
 open CM
 
 def suites : List (String × (List (String × String) → List (String × String) → List String)) :=
-  [("rc", suiteRC), ("tc", suiteTC), ("rp", suiteRP), ("sd", suiteSD), ("circuit", suiteCircuit)]
+  [("rc", suiteRC), ("tc", suiteTC), ("rp", suiteRP), ("sd", suiteSD), ("circuit", suiteCircuit), ("opener", suiteOpener)]
 
 partial def readAll (h : IO.FS.Stream) (acc : Array String) : IO (Array String) := do
   let line ← h.getLine
